@@ -126,11 +126,19 @@ let handle kind fs obs =
       (String.concat "." (String.split_on_char '/' (show_f show_region (g_image s g (ge_id s e)))))) (g_entries s g) in
     let (out, ok) = group_write s g in
     Printf.sprintf "%s|%s|%s|%s|%s" (sn g.r_off) (sn (g_type s g)) (join ";" ents) (if ok then "ok" else "err") (hex_of_nlist out) in
-  let mobs = Printf.sprintf "root=%s walk=%s fsck=%s lines=%s q=%s man=%s ver=%s icons=%s cursors=%s grp=%s"
+  let disp_ids = List.map n_of_string ["0"; "9"; "10"; "99"; "100"; "65535"; "65536"; "2147483647"; "2147483648"; "4294967295"]
+    @ List.filter_map (fun q -> match String.split_on_char ':' q with
+        | "g" :: n :: _ when String.length n > 0 && n.[0] = 'i' -> Some (n_of_string (String.sub n 1 (String.length n - 1)))
+        | _ -> None) qs in
+  let b2s b = if b then "1" else "0" in
+  let show_disp id = let d = display_id id in
+    Printf.sprintf "%s/%s%s%s" (hex_of_nlist d) (b2s (eq_string (NId id) d)) (b2s (name_eq (NStr d) (NId id))) (b2s (name_eq (NId id) (NStr d))) in
+  let mobs = Printf.sprintf "root=%s walk=%s fsck=%s lines=%s q=%s man=%s ver=%s icons=%s cursors=%s grp=%s disp=%s"
     (match rt with Ok r -> "ok:" ^ sn r | Err e -> "e" ^ show_err e | Fault _ -> "!fault")
     (join "," (List.map show_witem items)) (show_unit_res (fsck s)) (sn (display_lines s))
     (join "," (List.map run_query qs)) (show_f show_region (manifest s)) (show_f (fun _ -> "ok") (version_info s))
-    (join "," (List.map show_group icons)) (join "," (List.map show_group cursors)) (join "," (List.map show_write groups)) in
+    (join "," (List.map show_group icons)) (join "," (List.map show_group cursors)) (join "," (List.map show_write groups))
+    (join "," (List.map show_disp disp_ids)) in
   (* ---------------- oracle, on the implementation's observation ---------------- *)
   let tags = ref [] in
   let tag t = if not (List.mem t !tags) then tags := t :: !tags in
@@ -154,6 +162,10 @@ let handle kind fs obs =
      | "ok" -> tag "fsck-must-pass"; chk "fsck rejects a well-formed tree" (ifsck = "ok")
      | "err" -> tag "fsck-must-fail"; chk "fsck accepts a broken tree" (ifsck <> "ok")
      | _ -> ());
+    (* H: Display / eq round trip (C12_display_roundtrip, C12_display_is_decimal): '#' + the decimal digits, equal all three ways *)
+    let idisp = split_on ',' (field ofs "disp") in
+    chk "display/eq round trip" (List.length idisp = List.length disp_ids &&
+      List.for_all2 (fun id d -> d = hex_of_nlist (List.map (fun c -> n_of_int (Char.code c)) (List.of_seq (String.to_seq ("#" ^ sn id)))) ^ "/111") disp_ids idisp);
     if root_ok then begin
       (* C: every reported item is what the bytes say; entries at off+16+8i, named first *)
       chk "reported traversal is not what the bytes denote" (iroot = "ok:0" && walk_sound s oitems);
@@ -197,9 +209,20 @@ let handle kind fs obs =
             let r = (match t_first N0 oitems with FOk k -> tgt_ent (fst k).i_tgt | FErr e -> FErr e | FFault f -> FFault f) in
             chk "first" (part 0 = show_f show_ent r)
           | _ -> ()) qs;
-        (* the helpers *)
-        let man = t_find_resource oitems (NId (n_of_int 24)) (NId (n_of_int 1)) in
-        ignore man;
+        (* the helpers: manifest(), icons(), cursors() read off the listing (C12_lookups_on_traversal) *)
+        let man = t_manifest oitems in
+        (match man with FOk _ -> tag "manifest-found" | _ -> ());
+        chk "manifest" (field ofs "man" = (match man with
+          | FOk rg -> if utf8_valid (sec_bytes s rg.r_off rg.r_len) then show_region rg else "ePe.Encoding"
+          | FErr e -> show_ferr e | FFault _ -> "!fault"));
+        let exp_groups ty = join "," (List.map (function
+          | FOk (nm, rg) -> (match group_new s rg with
+              | Ok g -> Printf.sprintf "%s/%s/%s" (show_name nm) (sn g.r_off) (sn (g_count s g))
+              | Err e -> "ePe." ^ show_err e | Fault _ -> "!fault")
+          | FErr e -> show_ferr e | FFault _ -> "!fault") (take 40 (t_groups oitems (n_of_int ty)))) in
+        (if t_groups oitems (n_of_int 14) <> [] then tag "icons-listed");
+        chk "icons" (field ofs "icons" = exp_groups 14);
+        chk "cursors" (field ofs "cursors" = exp_groups 12);
         let ver = t_find_resource oitems (NId (n_of_int 16)) (NId (n_of_int 1)) in
         (match ver with
          | FOk rg -> tag "version-found";
